@@ -400,3 +400,14 @@ Lemma P_horizontal_max_min : forall (X : Type) (lt : X -> X -> bool) (d : X) (v 
    forall x, In x v -> lt (c09_hmax lt d v) x = false) /\
   c09_hmin lt d v = c09_hmax (fun a b => lt b a) d v.
 Proof. intros X lt d v H. destruct (P_hmax X lt d v H) as [A B]. exact (conj A (conj B (P_hmin_is_hmax X lt d v))). Qed.
+
+(* special members: a copy (copy / move construction, assignment, self-assignment, alignment conversion) has the source's lanes and lane count and
+   leaves the source as it was; swap exchanges; assigning the own lane k broadcasts the ORIGINAL lane k *)
+Lemma P_special_members : forall (X : Type) (d : X) (v w : list X) (k l : nat),
+  fst (c09_copy v) = v /\ snd (c09_copy v) = v /\ c09_lanes (fst (c09_copy v)) = c09_lanes v /\
+  fst (c09_swap v w) = w /\ snd (c09_swap v w) = v /\
+  (l < c09_lanes v -> c09_lane d l (c09_bcast (c09_lanes v) (c09_lane d k v)) = c09_lane d k v).
+Proof.
+  intros. unfold c09_copy, c09_swap, c09_lanes, c09_lane. simpl. repeat split.
+  intros H. apply (proj2 (P_bcast_lane X (length v) (nth k v d) d l H)).
+Qed.
